@@ -171,14 +171,29 @@ func runC20In(c *Ctx) {
 		// opts: load of a local struct; find the store to its Name field
 		if ld, ok := isLoad(call.Call.Args[0]); ok {
 			if al, ok := ld.X.(*ssa.Alloc); ok {
+				var extra []string
 				for _, r := range refs(al) {
-					if ofa, ok := r.(*ssa.FieldAddr); ok && fieldName(ofa.X.Type(), ofa.Field) == "Name" {
+					ofa, ok := r.(*ssa.FieldAddr)
+					if !ok {
+						continue
+					}
+					switch fn := fieldName(ofa.X.Type(), ofa.Field); fn {
+					case "Name":
 						for _, rr := range refs(ofa) {
 							if s2, ok := rr.(*ssa.Store); ok {
 								v.name, _ = constString(s2.Val)
 							}
 						}
+					case "Namespace", "Subsystem", "Help", "Buckets":
+					default:
+						extra = append(extra, fn)
 					}
+				}
+				// options beyond name/help/buckets change what the collector keeps (native histograms
+				// reset themselves, constant labels split series, objectives make a summary lossy)
+				if len(extra) > 0 {
+					sort.Strings(extra)
+					c.Fail("metric-opts:"+v.field, "the metric vectors are created with name, help and (for the histogram) buckets only: the exported values are plain sums over the observed results", "option(s) "+strings.Join(extra, ", ")+" set on the collector: it may drop, reset or re-bucket what was observed (not covered by the sum rules; needs review)", c.at(call))
 				}
 			}
 		}
